@@ -394,7 +394,12 @@ def check_default(ctx):
         ctx.check(R, dl, "default_linear_prior has no built-in %s" % nm, d is not None and isinstance(d, ast.Constant) and d.value is None, "default %s=%s" % (nm, A.unparse(d) if d is not None else "required"), key="default:none:" + nm, nontrivial=False)
     pd = A.param_default(fn, "P0")
     ctx.check(R, fn, "documented default P0 = 1 year", pd is not None and canon(pd) == canon(parse("1 * u.year")), "P0 default %s" % (A.unparse(pd) if pd is not None else None), key="default:P0", nontrivial=False)
-    merged = [s for s in A.walk_local(fn) if isinstance(s, ast.Assign) and canon(s.targets[0]) == "pars" and isinstance(s.value, ast.Dict)]
+    merged = [s for s in A.walk_local(fn) if isinstance(s, ast.Assign) and isinstance(s.targets[0], ast.Name) and (
+        (isinstance(s.value, ast.Dict) and s.value.keys and all(k is None for k in s.value.keys)) or (isinstance(s.value, ast.BinOp) and isinstance(s.value.op, ast.BitOr)))]
+    for m_ in merged:
+        if isinstance(m_.value, ast.BinOp):
+            # a | b on two mappings = {**a, **b}
+            m_.value = ast.copy_location(ast.Dict(keys=[None, None], values=[m_.value.left, m_.value.right]), m_.value)
     okm = len(merged) == 1 and all(k is None for k in merged[0].value.keys) and len(merged[0].value.values) == 2
     if okm:
         srcs = []
